@@ -113,7 +113,8 @@ fn ref_dec(r: &RefHuffman, input: &[u8], cap: usize) -> RDec {
 
 /// the C++ `Compress`; always into a big buffer (it writes before it checks)
 fn ref_comp(r: &RefHuffman, xs: &[u8]) -> Vec<u8> {
-    let mut buf = vec![0u8; 3 * xs.len() + 16];
+    // codes of a reference-built tree can be longer than 24 bits (up to 256 for a degenerate tree)
+    let mut buf = vec![0u8; 40 * xs.len() + 64];
     let res = r.compress(xs, &mut buf[..]).expect("reference compress: big buffer").to_vec();
     res
 }
@@ -592,15 +593,19 @@ impl Ctx {
                 format!("input={} compress.len={} compressed_len={} compress_bug.len={} compressed_len_bug={}", short(xs), c.len(), l, cb.len(), lb),
             );
         }
-        // the C++ uses `int` frequencies: only comparable below 2^31
-        let sum: u64 = fs.iter().map(|&f| f as u64).sum::<u64>() + 1;
+        // The C++ stores the frequencies in `int`s: its arithmetic is defined (no signed overflow in
+        // any merge) when the magnitudes of the values reinterpreted as i32 sum to less than 2^31.
+        // Entries >= 2^31 are then *negative* for the C++ and huge for the Rust (u32,
+        // saturating_add): a separate failure class.
+        let sum: u64 = fs.iter().map(|&f| (f as i32 as i64).unsigned_abs()).sum::<u64>() + 1;
+        let signed = fs.iter().any(|&f| f >= (1u32 << 31));
         if sum < (1u64 << 31) {
-            o.count("fq_reference_compared");
+            o.count(if signed { "fq_reference_compared_signed" } else { "fq_reference_compared" });
             let refh = RefHuffman::from_frequencies(fs);
             let rc = ref_comp(&refh, xs);
             if rc != cb {
                 o.fail(
-                    "C07/fq-compress-bug-vs-reference",
+                    if signed { "C07/fq-reference-signed-frequency" } else { "C07/fq-compress-bug-vs-reference" },
                     format!("input={} compress_bug={} reference={}", short(xs), short(&cb), short(&rc)),
                 );
             }
@@ -608,7 +613,7 @@ impl Ctx {
             if let RDec::Ok(b) = &rr {
                 if !matches!(&d, Dec::Ok(v) if v == b) {
                     o.fail(
-                        "C07/fq-reference-agreement",
+                        if signed { "C07/fq-reference-signed-frequency" } else { "C07/fq-reference-agreement" },
                         format!("cap={} input={} reference=ok:{} rust={}", cap, short(xs), short(b), dec_show(&d)),
                     );
                 }
